@@ -8,7 +8,7 @@ dispatcher, one parser per statement kind, the statement's effect on the matrix 
 lookup by name, `frame` variable, dictionaries in insertion order) and the count of "error with line no".  It is tied to the real reader
 on every generated file - as written and damaged - by the correspondence check (op `whole`).
 
-Here: for ANY sequence of well-formed statements of the twelve one-line kinds (`BO_`, `SG_`, empty line, `BO_TX_BU_`, `VAL_`,
+Here: for ANY sequence of well-formed statements of the thirteen one-line kinds (`BU_:`, `BO_`, `SG_`, empty line, `BO_TX_BU_`, `VAL_`,
 `VAL_TABLE_`, `BA_DEF_` on all levels, `BA_DEF_DEF_`, `BA_` on all levels, `SIG_GROUP_`, `SIG_VALTYPE_`, `SG_MUL_VAL_`), in any order
 and of any length, every written line is recognised by the dispatcher as the statement it is (no line is an "error with line" because
 of its form, none is mistaken for another kind: `BA_DEF_DEF_` is not taken for `BA_DEF_`, `BO_TX_BU_` not for `BO_`, …), and the file is
@@ -126,6 +126,9 @@ example : (readFile (writeFile exStmts)).frames.map (fun f => (f.comment, f.tran
 its second line is read as a statement of its own (here: as a frame) -/
 example : okFile {} [.cm (.bu "Nobody".toList) "x\nBO_ 5 Ghost: 8 E1".toList] = false ∧
     ((readFile (writeFile [.cm (.bu "Nobody".toList) "x\nBO_ 5 Ghost: 8 E1".toList])).frames.map fun f => f.name) = ["Ghost".toList] := by decide +kernel
+/-- the list of ECUs: names of one character are dropped by the reader (hence the envelope of `Stmt.bu`) -/
+example : scanLine (renderBu ["ECU_A".toList, "Gw".toList]) = .item (.bu ["ECU_A".toList, "Gw".toList]) := by decide +kernel
+example : scanLine "BU_: A Gw".toList = .item (.bu ["Gw".toList]) := by decide +kernel
 /-- the dispatcher keeps apart the kinds whose keywords begin alike -/
 example : scanLine "BA_DEF_DEF_ \"Cycle\" 100;".toList = .item (.defdef "Cycle".toList "100".toList) := by decide +kernel
 example : (Stmt.tx ⟨291, ["A1".toList, "B2".toList]⟩).wf = true := by decide
